@@ -16,7 +16,7 @@ mod run;
 fn main() {
     let args: Vec<String> = std::env::args().collect();
     // Panics are observations here, not noise.
-    std::panic::set_hook(Box::new(|_| {}));
+    if std::env::var("HARNESS_PANIC_MSG").is_err() { std::panic::set_hook(Box::new(|_| {})); }
     if args.len() >= 2 && args[1] == "replay" {
         replay();
         return;
